@@ -25,7 +25,7 @@ var c14Alphabet = []string{"a", "B", "ü", "1", "#", "=", "\"", "'", "_", "-", "
 var c14Queries = []string{"a", "#A", "b", "B", "ü", "Ü", "a=1", "a='1'", "a=\"1\"", "a=B", "a=b", "1", "_", "-", "a-", "中", "a=", "b=ü", "a=\" \"", "a='a'", "aB", "#ab=1"}
 
 // tag placements for the totals family
-var c14Place = []string{"", "#a", "#A", "#a=1", "#a=2", "#a #a", "#b", "#a=1 #a=\"1\" #b=x"}
+var c14Place = []string{"", "#a", "#A", "#a=1", "#a=2", "#a #a", "#b", "#a=1 #a=\"1\" #b=x", "#a1 #b=X #b=x"} // (#a1 vs #a=1: name+value must not be confused; #b=X vs #b=x: values are case-sensitive)
 
 type c14Case struct {
 	Fam  string `json:"fam"`
@@ -81,7 +81,7 @@ func init() {
 		Title: "Tags are recognised, matched and totalled as the specification defines",
 		Rule: "S = ALL strings of <=6 (quick) / 7 (thorough) symbols over {a, B, ü, 1, #, =, \", ', _, -, space, ., 中, U+FF12 (a Unicode digit that is not 0-9)} as record summary line, entry summary first line and continuation line " +
 			"(through the summary constructors and through the real parser), each checked for the recognised tag list and against 22 tag queries; " +
-			"T = totals: one or two records with 3(+2) entries and every combination of 8 tag placements {none, #a, #A, #a=1, #a=2, #a #a, #b, mixed} at record level and on each entry (8192 documents), " +
+			"T = totals: one or two records with 3(+2) entries and every combination of 9 tag placements {none, #a, #A, #a=1, #a=2, #a #a, #b, mixed, #a1 #b=X #b=x} at record level and on each entry (13122 documents), " +
 			"under the canonical map order for all and under every map-iteration order within the deviation bound (DFS over the Merge / aggregation map ranges: at most 1 (quick) / 2 (thorough) non-canonical orders per execution, each of them any of the n! permutations) for every 16th. non-trivial = contains '#'; distinct by text hash.",
 		Assumptions: []string{
 			"specmodel.ScanTags (hand-written scanner for the spec's tag grammar) and per-entry set semantics for totals",
